@@ -46,13 +46,13 @@ def default_behaviours(chk, per_config=None):
     n = per_config or (1500 if thorough else 120)
     rng = random.Random(vf.seed())
     out = []
-    # thorough: two items per block after the basic prelude, one more free block after the others (two items per
-    # block after the votes / cancel preludes did not finish within the time limit once amounts were made distinct)
-    plan = [("ckp-basic", "basic", 8, 2 if thorough else 1), ("ckp-votes", "votes", 11 if thorough else 10, 1),
-            ("ckp-cancel", "cancel", 13 if thorough else 12, 1), ("ckp-penalty", "penalty", 12 if thorough else 11, 1)]
+    # thorough: two items per block after the basic prelude (one printed edge in 8: the full output does not fit in
+    # memory), otherwise the quick bounds with more behaviours replayed
+    plan = [("ckp-basic", "basic", 8, 2 if thorough else 1), ("ckp-votes", "votes", 10, 1),
+            ("ckp-cancel", "cancel", 12, 1), ("ckp-penalty", "penalty", 11, 1)]
     for label, prelude, maxh, items in plan:
         r = dc.tlc_run(chk, label, prelude, dc.ALL_KINDS, maxh, items, 1, emit="Emit", workers=1,
-                       checkpoint=(label == "ckp-basic"))
+                       checkpoint=(label == "ckp-basic"), sample=8 if items > 1 else 1, timeout=2400)
         behs, st = vf.behaviours(r, limit=None)
         behs = dc.pick(behs, n, rng)
         st.pop("classes", None)
